@@ -47,41 +47,42 @@ inductive Verdict | ok | bad (msg : String) | undecided (why : String)
 
 open Encl
 
-/-- |r − T| ≤ tol·ulp(T) + extraRel·T for a positive true value T = t.m·10^t.k and a result r
-    (`rneg` must be false: the sign is checked by the caller) -/
+/-- |r − T| ≤ ulp + extraRel·T for a positive true value T = z·10^t.k, z ∈ [t.m.lo, t.m.hi], and a result r
+    (`rneg` must be false: the sign is checked by the caller).  Every `.bad` verdict holds for every T in the
+    enclosure: the range tests use the end of the enclosure that makes them certain, and the unit is the
+    format's spacing at the upper end (≥ the spacing at T). -/
 def withinUlps (r : Val) (t : Sci) (extraRel : Rat := 0) : Verdict :=
   let lo := t.m.lo; let hi := t.m.hi
   if lo ≤ 0 then .undecided "enclosure not positive" else
-  let l := ilog10 lo + t.k                        -- decimal exponent of the true value
+  let l := ilog10 lo + t.k                        -- decimal exponent of the lower end of the enclosure
+  let lh := ilog10 hi + t.k                       -- decimal exponent of the upper end
   -- exponent of the format's spacing at the true value; where the enclosure touches a point at which the
   -- spacing changes (a power of ten, or (Cmax+1)·10^e), the spacing above that point is the unit
   let eT : Int := max (spacingExpS lo t.k) (spacingExpS hi t.k)
   let extraLo := lo * extraRel; let extraHi := hi * extraRel
+  let u := pow10 (eT - t.k)
   match r with
   | .nan .. => .bad "NaN from finite operands"
   | .inf _ =>
     -- acceptable only when T + tolerance reaches beyond the largest finite Decimal
     let maxScaled := (Cmax : Rat) * pow10 (Emax - t.k)
     if l > Emax + 36 then .ok
-    else if l < Emax + 30 then .bad "infinite result although the true result is representable"
-    else if hi + extraHi + pow10 (eT - t.k) ≥ maxScaled then .ok
+    else if lh < Emax + 30 then .bad "infinite result although the true result is representable"
+    else if hi + extraHi + u ≥ maxScaled then .ok
     else .bad "infinite result although the true result is representable"
   | .fin _ c e =>
     if c == 0 then
-      -- zero only when T is within one (subnormal) ulp of zero
-      if l < Emin - 1 then .ok
-      else if l > Emin + 1 then .bad "zero result although the true result is representable"
-      else if lo * pow10 (t.k - Emin) ≤ 1 + extraLo then .ok
+      -- zero only when T is within one ulp (plus the extra tolerance) of zero
+      if lo - u - extraLo ≤ 0 then .ok
       else .bad "zero result although the true result is representable"
     else
       if l > Emax + 40 then .bad "finite result although the true result overflows"
-      else if l < Emin - 40 then .bad "non-zero result although the true result underflows"
+      else if lh < Emin - 40 then .bad "non-zero result although the true result underflows"
       else
       let d := e - t.k
-      if d > 120 || d < -120 then .bad "result has a wrong decimal exponent" else
       let rs := (c : Rat) * pow10 d
-      let u := pow10 (eT - t.k)
       if lo - u - extraLo ≤ rs && rs ≤ hi + u + extraHi then .ok
+      else if d > 120 || d < -120 then .bad "result has a wrong decimal exponent"
       else .bad s!"more than one ulp from the true value (true≈{(lo * pow10 (36 - ilog10 lo)).floor}e{ilog10 lo + t.k - 36})"
 
 /-- exact Sci for a rational times a power of ten -/
@@ -95,11 +96,11 @@ def trueValue (f : Fn) (n : Bool) (c : Nat) (e : Int) : Option (Bool × Sci) :=
   let nearOne : Option (Bool × Sci) := some (false, ⟨⟨1 - pow10 (-39), 1 + pow10 (-39)⟩, 0⟩)
   match f with
   | .exp =>
-    if e + (ndigits c : Int) > 7 then none else if e + (ndigits c : Int) < -40 then nearOne else some (false, Encl.exp x)
+    if e + (ndigits c : Int) > 7 then none else if e + (ndigits c : Int) < -40 then nearOne else (Encl.exp x).map (fun t => (false, t))
   | .exp2 =>
-    if e + (ndigits c : Int) > 7 then none else if e + (ndigits c : Int) < -40 then nearOne else some (false, expI ((I.pt x).mul ln2))
+    if e + (ndigits c : Int) > 7 then none else if e + (ndigits c : Int) < -40 then nearOne else (expI ((I.pt x).mul ln2)).map (fun t => (false, t))
   | .exp10 =>
-    if e + (ndigits c : Int) > 7 then none else if e + (ndigits c : Int) < -40 then nearOne else some (false, expI ((I.pt x).mul ln10))
+    if e + (ndigits c : Int) > 7 then none else if e + (ndigits c : Int) < -40 then nearOne else (expI ((I.pt x).mul ln10)).map (fun t => (false, t))
   | .expm1 =>
     if e + (ndigits c : Int) > 7 then none
     else if e + (ndigits c : Int) < -40 then
@@ -110,11 +111,14 @@ def trueValue (f : Fn) (n : Bool) (c : Nat) (e : Int) : Option (Bool × Sci) :=
       some (true, ⟨⟨1 - pow10 (-40), 1⟩, 0⟩)
     else if !n && e + (ndigits c : Int) > 2 then
       -- x ≥ 100: e^x − 1 = e^x·(1 − e^-x), e^-x < 1e-43
-      let t := Encl.exp x
-      some (false, ⟨⟨t.m.lo * (1 - pow10 (-40)), t.m.hi⟩, t.k⟩)
+      match Encl.exp x with
+      | none => none
+      | some t => some (false, ⟨⟨t.m.lo * (1 - pow10 (-40)), t.m.hi⟩, t.k⟩)
     else
-      let v := Encl.expm1 x
-      if v.lo > 0 then some (false, ⟨v, 0⟩) else if v.hi < 0 then some (true, ⟨v.neg, 0⟩) else none
+      match Encl.expm1 x with
+      | none => none
+      | some v =>
+        if v.lo > 0 then some (false, ⟨v, 0⟩) else if v.hi < 0 then some (true, ⟨v.neg, 0⟩) else none
   | .log | .log2 | .log10 =>
     match Encl.log (c : Rat) e with
     | none => none
@@ -142,7 +146,7 @@ def exactCase (f : Fn) (n : Bool) (c : Nat) (e : Int) : Option Val :=
   let x : Rat := if e.natAbs > 50 then 0 else (if n then -(mag c e) else mag c e)
   if e.natAbs > 50 then none else
   match f with
-  | .exp10 => if x.den == 1 && x.num.natAbs ≤ 6200 then some (exactOrInfS false 1 x.num) else none
+  | .exp10 => if x.den == 1 && x.num.natAbs ≤ 6200 then some (flushOrRoundS .nearestEven false 1 x.num) else none
   | .exp2 =>
     if x.den == 1 && x.num ≥ 0 && x.num ≤ 113 then some (.fin false (2 ^ x.num.toNat) 0)
     else if x.den == 1 && x.num < 0 && x.num ≥ -48 then some (.fin false (5 ^ (-x.num).toNat) x.num)
@@ -261,12 +265,12 @@ def powSpecial (m : Mode) (x y : Val) : Option Val :=
         | some k =>
           let neg := xn && (intParity yc ye == some true)
           if !yn && ye ≥ 0 then
-            -- non-negative integer exponent: exactly 10^(k·y), zero / Inf beyond the range
+            -- non-negative integer exponent: exactly 10^(k·y), m-rounded below Emin, zero / Inf beyond the range
             if ye > 6 || yc * 10 ^ ye.toNat > 20000 then
               some (if k == 0 then .fin neg 1 0 else if k > 0 then .inf neg else .fin neg 0 0)
             else
               let t := k * ((yc * 10 ^ ye.toNat : Nat) : Int)
-              some (if t < Emin - 1 then .fin neg 0 0 else exactOrInfS neg 1 t)
+              some (flushOrRoundS m neg 1 t)
           else if !xn && mag yc ye == 1 / 2 && k % 2 == 0 then
             some (exactOrInfS false 1 (if yn then -(k / 2) else k / 2))
           else none
@@ -306,8 +310,11 @@ def judgePow (m : Mode) (x y r : Val) : Verdict :=
         if p.lo > plim then (if r.same (.inf neg) then .ok else .bad "overflow must give Inf")
         else if p.hi < -plim then (if r.isZero && r.neg == neg then .ok else .bad "underflow must give zero")
         else
-          let t : Sci := if p.hi < pow10 (-40) && p.lo > -(pow10 (-40)) then ⟨⟨1 - pow10 (-39), 1 + pow10 (-39)⟩, 0⟩ else expI p
-          let lnx := if l.lo < 0 then -l.lo else l.hi
+          let t? : Option Sci := if p.hi < pow10 (-40) && p.lo > -(pow10 (-40)) then some ⟨⟨1 - pow10 (-39), 1 + pow10 (-39)⟩, 0⟩ else expI p
+          match t? with
+          | none => .undecided "no certified enclosure of the power (argument interval too wide)"
+          | some t =>
+          let lnx := if -l.lo > l.hi then -l.lo else l.hi      -- ≥ |ln|x|| for every value in l
           let extra := ymag * (4 * pow10 (-37) * lnx + pow10 (-55))
           if !r.isNaN && r.neg != neg then .bad "wrong sign"
           else withinUlps (match r with | .fin _ c e => .fin false c e | .inf _ => .inf false | v => v) t extra
